@@ -68,6 +68,12 @@ def cases(draw, tier="quick"):
         c["members"] = draw(st.lists(st.tuples(member, st.sampled_from([0, 0o644, 0o755, 0o40755, 0o100600])).map(list),
                                      max_size=5))
         if draw(st.integers(0, 5)) == 0:
+            # a harmless member below a top-level entry, followed by one that escapes through that same entry
+            pos = draw(st.integers(0, len(c["members"])))
+            top = draw(st.sampled_from(["sub", "a", "dir1"]))
+            esc = draw(st.sampled_from(["%s/../%%SIBLING%%", "%s/x/../../%%SIBLING%%", "%s/../../%%DECOY_CWD_NAME%%"])) % top
+            c["members"][pos:pos] = [[top + "/inner.txt", 0o644], [esc, draw(st.sampled_from([0o666, 0o777, 0o600]))]]
+        if draw(st.integers(0, 5)) == 0:
             # an archive entry flagged as a symbolic link (its body is the link target) followed by a member "below" it
             pos = draw(st.integers(0, len(c["members"])))
             c["members"][pos:pos] = [["lnk", 0o120777], ["lnk/notes.txt", 0o644]]
